@@ -277,3 +277,84 @@ Theorem trace_nested_example :
   Some (bs "sub/c.jst", 7, CEIncorrectContext, [(bs "a.jst", 7); (bs "r.jst", 11)]).
 Proof. split; [exact ex_trace_nested_loop|exact ex_trace_nested_directive]. Qed.
 Print Assumptions trace_nested_example.
+
+(* ---- the ORDER of the include trace (proofs/CoreMoreProofs.v) ----
+   Vocabulary:
+     included_from root f tr   tr is the chain by which f is included from root, innermost first:
+                               [] for root itself; otherwise its head (g, off) is the file g that
+                               DIRECTLY includes f (f = Join(Dir(g), name), name accepted by the
+                               regenerated validator) and its tail is the chain of g *)
+From JV.proofs Require Import CoreMoreProofs.
+
+(* what included_from says: the direct includer first, the root file last *)
+Theorem included_from_shape : forall root f tr,
+  included_from root f tr ->
+  (tr = [] /\ f = root) \/
+  (exists g off tr' path,
+     tr = (g, off) :: tr' /\ validateIncludeFileName path = GOk None /\ f = join2 (dir g) path /\
+     included_from root g tr' /\
+     exists pre off0, tr = pre ++ [(root, off0)]).
+Proof. exact included_from_shape_lemma. Qed.
+Print Assumptions included_from_shape.
+
+(* in every state of the scan, the trace of the scanner stack (the trace every error of the scan
+   loop gets: scan_err) is the chain of the file being read, in that order; that the offsets are
+   those of the INCLUDE keywords is scan_error_trace (entry_real) above *)
+Theorem stack_trace_order : forall jsc_len enum_len files banned root content s,
+  scan_reach jsc_len enum_len files banned (init_state root content) s ->
+  included_from root (sc_file (cs_sc s)) (stack_trace (cs_stack s)).
+Proof. exact stack_trace_order_lemma. Qed.
+Print Assumptions stack_trace_order.
+
+(* (b) the end-of-file error (processEOF): when a file -- the root or an included one -- ends while
+   a parenthesised context is open, the whole scan ends with 'not all explicit contexts are
+   closed' located in THAT file (one before the final read position) with the chain of THAT file:
+   the error is raised before the file is left.  Example: CoreMoreProofs.ex_eof_error_in_included. *)
+Theorem eof_error_trace : forall jsc_len enum_len files banned root content s x1 s1,
+  scan_reach jsc_len enum_len files banned (init_state root content) s ->
+  sc_next jsc_len enum_len (cs_sc s) = Ok (x1, None) -> flush_cur (upd_sc s x1) = COk s1 ->
+  has_unclosed_explicit (cs_frames s1) = true ->
+  exists e,
+    (exists n, forall fuel, (n < fuel)%nat ->
+       scan_project jsc_len enum_len files banned fuel (init_state root content) = CErr e) /\
+    ce_file e = sc_file (cs_sc s) /\ ce_idx e = pos (sc_cfg x1) - 1 /\ ce_kind e = CENotAllClosed /\
+    ce_trace e = stack_trace (cs_stack s) /\
+    included_from root (ce_file e) (ce_trace e).
+Proof. exact eof_error_trace_lemma. Qed.
+Print Assumptions eof_error_trace.
+
+(* (a) every error of the scan, when no file holds two INCLUDEs: its trace is the chain of the file
+   it lies in, direct includer first.  Example: CoreMoreProofs.ex_error_trace_order. *)
+Theorem error_trace_order : forall jsc_len enum_len files banned root fuel content e,
+  len_sane jsc_len -> len_sane enum_len -> fs_all_bytes files = true ->
+  single_include_per_file files = true ->
+  fs_stat files root = Some (FFile content) ->
+  scan_project jsc_len enum_len files banned fuel (init_state root content) = CErr e ->
+  included_from root (ce_file e) (ce_trace e).
+Proof. exact error_trace_order_lemma. Qed.
+Print Assumptions error_trace_order.
+
+(* ... without that hypothesis: every error is either so, or is about the pending directive d of a
+   reached state and carries d's own tracer (which the per-name cache may have made stale:
+   directive_trace_is_chain_two_includes_refuted) *)
+Theorem loop_error_trace_order : forall jsc_len enum_len files banned root fuel content e,
+  len_sane jsc_len -> len_sane enum_len -> fs_all_bytes files = true ->
+  fs_stat files root = Some (FFile content) ->
+  scan_project jsc_len enum_len files banned fuel (init_state root content) = CErr e ->
+  included_from root (ce_file e) (ce_trace e) \/
+  (exists s d, scan_reach jsc_len enum_len files banned (init_state root content) s /\
+               cs_cur s = Some d /\ ce_file e = c_file (d_kw d) /\ ce_idx e = c_beg (d_kw d) /\
+               ce_trace e = rev (d_trace d)).
+Proof. exact loop_error_trace_order_lemma. Qed.
+Print Assumptions loop_error_trace_order.
+
+(* (c) the tracer of every directive of the forest (kept outermost first; kw_err reverses it), when
+   no file holds two INCLUDEs: innermost first it is the chain of the file the directive lies in.
+   Example: CoreMoreProofs.ex_directive_trace_order. *)
+Theorem directive_trace_order : forall jsc_len enum_len files banned root fuel f,
+  len_sane jsc_len -> len_sane enum_len -> fs_all_bytes files = true ->
+  single_include_per_file files = true ->
+  scan_forest_with fuel jsc_len enum_len files banned root = COk f ->
+  forall d, In d (forest_dirs f) -> included_from root (c_file (d_kw d)) (rev (d_trace d)).
+Proof. exact directive_trace_order_lemma. Qed.
+Print Assumptions directive_trace_order.
